@@ -76,6 +76,14 @@ def net_cfg(net: dict, **over) -> dict:
     start = datetime.fromisoformat(net["start"])
     tcfgs = []
     for t in net["targets"]:
+        if t.get("geostationary"):
+            # fixed in the Earth-fixed frame above the equator near the sites' longitude (rotation taken from the repository; C04's subject)
+            from resonaate.physics.transforms.methods import ecef2eci
+
+            lon = math.radians(net["base"][1] + float(t["off"][1]))
+            xg = np.asarray(ecef2eci(np.array([42164.17 * math.cos(lon), 42164.17 * math.sin(lon), 0.0, 0.0, 0.0, 0.0]), start), dtype=float)
+            tcfgs.append(sk.target_cfg(t["id"], xg[:3], xg[3:]))
+            continue
         r, v = overhead_state(start, net["base"][0], net["base"][1], t["radius"], t["heading"], tuple(t["off"]))
         tcfgs.append(sk.target_cfg(t["id"], r, v))
     scfgs = []
